@@ -156,6 +156,14 @@ func C19Group(obs []SigObs) (string, int) {
 				ref = o
 				continue
 			}
+			if strings.Contains(o.Variant, "permute") || strings.Contains(ref.Variant, "permute") {
+				// header lines were reordered: only the order part may differ
+				if o.Sig.Method != ref.Sig.Method || o.Sig.CidSLen != ref.Sig.CidSLen || o.Sig.CidSig != ref.Sig.CidSig ||
+					o.Sig.FromSig != ref.Sig.FromSig || o.Sig.ViaBSig != ref.Sig.ViaBSig {
+					return fmt.Sprintf("variant %q (conn %d) signature %q: method / Call-ID / From-tag / Via-branch parts differ from variant %q (conn %d) signature %q although only the order of header lines changed", o.Variant, o.Conn, o.Str, ref.Variant, ref.Conn, ref.Str), o.Conn
+				}
+				continue
+			}
 			if o.Sig != ref.Sig || o.Str != ref.Str {
 				return fmt.Sprintf("variant %q (conn %d) signature %q differs from variant %q (conn %d) signature %q", o.Variant, o.Conn, o.Str, ref.Variant, ref.Conn, ref.Str), o.Conn
 			}
@@ -165,6 +173,9 @@ func C19Group(obs []SigObs) (string, int) {
 		for i := range obs {
 			o := &obs[i]
 			if !o.Request || o.Cap >= o.HdrN {
+				continue
+			}
+			if strings.Contains(o.Variant, "permute") || strings.Contains(ref.Variant, "permute") {
 				continue
 			}
 			if !(o.Sig == ref.Sig && o.Err == sipsp.ErrHdrOk) && o.Err != sipsp.ErrHdrTrunc {
